@@ -58,8 +58,11 @@ def parseEvs (s : String) : Option (List Ev) :=
 
 /-- a duration: `<ms>` (`Duration::from_millis`) or `u<micros>` (`Duration::from_micros`); every component reads it with
 `as_millis()`, which truncates — the model works in whole milliseconds -/
-def parseDur (s : String) : Option Nat :=
-  if s.startsWith "u" then (String.ofList (s.toList.drop 1)).toNat?.map (· / 1000) else s.toNat?
+def parseDurArg (s : String) : Option DurArg :=
+  if s.startsWith "u" then (String.ofList (s.toList.drop 1)).toNat?.map DurArg.micros else s.toNat?.map DurArg.millis
+
+/-- the milliseconds of the token: `DurArg.ms` (Model.lean; `C12.parseDur_truncates`: = `as_millis()` of the `Duration` the harness builds) -/
+def parseDur (s : String) : Option Nat := (parseDurArg s).map DurArg.ms
 
 /-- the numeric view of a field over the extended reals (`XV` cases) -/
 def parseXVal (s : String) : Option (Option XNum) :=
